@@ -242,7 +242,7 @@ fn seg_put_protected() {
     ck!(post.protected.val_of(k) == Some(v), "[C07.put_protected][C02.value] put_protected places the key in the protected segment with the value");
     ck!(!post.probationary.has(k), "[C07.put_protected] ... and nowhere else");
     ck!(put_result_truthful(&[&pre.probationary, &pre.protected], &[&post.probationary, &post.protected], k, v, pr_of(&r)),
-        "[C12.result][C12.delta] put_protected's PutResult tells the truth about the retained set");
+        "[C12.result][C12.delta][C07.demote] put_protected's PutResult tells the truth about the retained set: a promotion that overflows the protected segment demotes, nothing is evicted silently");
     s.verif_forget();
 }
 
